@@ -871,6 +871,9 @@ theorem eager_index_axiswise (comps : List Comp) (shape : List Nat) (r : View)
   rw [if_neg hlen] at h
   have hlen' : comps.length ≤ shape.length := by omega
   refine ⟨hlen', ?_⟩
+  by_cases hz0 : (comps.any (fun c => c.isEagerSliced && c.stepVal == 0)) = true
+  · rw [if_pos hz0] at h; simp [bind, Except.bind] at h
+  rw [if_neg hz0] at h
   -- the two Gather-only shapes of the plan end in the same per-axis function
   have hgatherF : ∀ v1, axiswise (withGather Comp.isEagerScalar pickF) comps shape = .ok v1 →
       eSlicedOf comps = [] →
@@ -1024,5 +1027,287 @@ theorem numpyIndex_of_axiswise (comps : List Comp) (shape : List Nat) (r : View)
   unfold numpyIndex
   rw [if_neg (by omega), if_neg (by omega), hnt]
   simpa using h
+
+/-! ### Surplus `:` components (finding C11-N1: too many indices) -/
+
+theorem filter_zipIdx_append_none (F : Comp → Bool) (l1 l2 : List Comp) (h : ∀ c ∈ l2, F c = false) :
+    (l1 ++ l2).zipIdx.filter (fun p => F p.1) = l1.zipIdx.filter (fun p => F p.1) := by
+  rw [List.zipIdx_append, List.filter_append, filter_zipIdx_none F l2 _ h, List.append_nil]
+
+/-- The converter looks only at the components that are not `:`; appending `:`s changes nothing in
+the plan — whatever the rank of the tensor is. -/
+theorem planGraph_append_skips (comps extra : List Comp) (hextra : ∀ c ∈ extra, c.kind = Kind.skip) :
+    planGraph (comps ++ extra) = planGraph comps := by
+  have h1 : slicedOf (comps ++ extra) = slicedOf comps :=
+    filter_zipIdx_append_none (fun c => c.kind == Kind.sliced) comps extra
+      (fun c hc => by rw [hextra c hc]; rfl)
+  have h2 : scalarsOf (comps ++ extra) = scalarsOf comps :=
+    filter_zipIdx_append_none (fun c => c.kind == Kind.scalar) comps extra
+      (fun c hc => by rw [hextra c hc]; rfl)
+  have h3 : nonScalarsOf (comps ++ extra) = nonScalarsOf comps :=
+    filter_zipIdx_append_none (fun c => c.kind == Kind.nonScalar) comps extra
+      (fun c hc => by rw [hextra c hc]; rfl)
+  have h4 : gatheredOf (comps ++ extra) = gatheredOf comps :=
+    filter_zipIdx_append_none (fun c => c.kind == Kind.nonScalar || c.kind == Kind.scalar) comps extra
+      (fun c hc => by rw [hextra c hc]; rfl)
+  unfold planGraph useSlice sliceEntriesOf
+  rw [h1, h2, h3, h4]
+
+/-! ### Too many indices: a surplus component that is not `:` makes the graph fail -/
+
+theorem View.init_rank (ds : List Nat) : (View.init ds).rank = ds.length := by
+  unfold View.rank View.init
+  induction ds with
+  | nil => rfl
+  | cons d ds ih => simp only [List.map_cons, List.filter_cons, AxisMap.isPick, if_true, List.length_cons, ih]
+
+theorem modifyPick_rank_fail (f : List Nat → Except Err AxisMap) :
+    ∀ (v : View) (k : Nat), v.rank ≤ k → ∃ e, modifyPick k f v = .error e := by
+  intro v
+  induction v with
+  | nil => intro k _; exact ⟨_, rfl⟩
+  | cons a rest ih =>
+    intro k hk
+    cases a with
+    | drop s =>
+      have hk' : View.rank rest ≤ k := by
+        simpa [View.rank, List.filter_cons, AxisMap.isPick] using hk
+      obtain ⟨e, he⟩ := ih k hk'
+      exact ⟨e, by simp [modifyPick, he, bind, Except.bind]⟩
+    | pick srcs =>
+      have hk' : View.rank rest + 1 ≤ k := by
+        simpa [View.rank, List.filter_cons, AxisMap.isPick] using hk
+      cases k with
+      | zero => omega
+      | succ k =>
+        obtain ⟨e, he⟩ := ih k (by omega)
+        exact ⟨e, by simp [modifyPick, he, bind, Except.bind]⟩
+
+/-- A Gather chain all of whose selected components name an axis that is not there fails (the
+first Gather that runs — the one for the last selected component — already does). -/
+theorem gather_chain_fails (G : Comp → Bool) (axisOf : Nat → Nat)
+    (hGop : ∀ c a, G c = true → (gatherOp a c).isSome = true) :
+    ∀ (cs : List Comp) (n : Nat) (v : View),
+      (∀ (i : Nat) (c : Comp), cs[i]? = some c → G c = true → v.rank ≤ axisOf (n + i)) →
+      (∃ (i : Nat) (c : Comp), cs[i]? = some c ∧ G c = true) →
+      ∃ e, runPlan ((((cs.zipIdx n).filter (fun p => G p.1)).reverse).filterMap
+          (fun p => gatherOp (axisOf p.2) p.1)) v = .error e := by
+  intro cs
+  induction cs with
+  | nil =>
+    intro n v _ hex
+    obtain ⟨i, c, hi, _⟩ := hex
+    simp at hi
+  | cons c cs ih =>
+    intro n v hA hex
+    have hA' : ∀ (i : Nat) (c' : Comp), cs[i]? = some c' → G c' = true → v.rank ≤ axisOf (n + 1 + i) := by
+      intro i c' hi hg
+      have := hA (i + 1) c' (by simpa using hi) hg
+      rwa [show n + (i + 1) = n + 1 + i by omega] at this
+    simp only [List.zipIdx_cons]
+    by_cases htail : ∃ (i : Nat) (c' : Comp), cs[i]? = some c' ∧ G c' = true
+    · obtain ⟨e, he⟩ := ih (n + 1) v hA' htail
+      by_cases hg : G c = true
+      · have hfil : ((c, n) :: cs.zipIdx (n + 1)).filter (fun p => G p.1)
+            = (c, n) :: (cs.zipIdx (n + 1)).filter (fun p => G p.1) := by simp [hg]
+        rw [hfil, List.reverse_cons, List.filterMap_append, runPlan_append, he]
+        exact ⟨e, rfl⟩
+      · have hg' : G c = false := by simpa using hg
+        have hfil : ((c, n) :: cs.zipIdx (n + 1)).filter (fun p => G p.1)
+            = (cs.zipIdx (n + 1)).filter (fun p => G p.1) := by simp [hg']
+        rw [hfil]
+        exact ⟨e, he⟩
+    · have hnone : ∀ c' ∈ cs, G c' = false := by
+        intro c' hc'
+        obtain ⟨i, hi⟩ := List.getElem?_of_mem hc'
+        cases hg : G c' with
+        | false => rfl
+        | true => exact absurd ⟨i, c', hi, hg⟩ htail
+      have hg : G c = true := by
+        obtain ⟨i, c', hi, hg⟩ := hex
+        cases i with
+        | zero => simp at hi; subst hi; exact hg
+        | succ i => exact absurd ⟨i, c', by simpa using hi, hg⟩ htail
+      have hfil : ((c, n) :: cs.zipIdx (n + 1)).filter (fun p => G p.1) = [(c, n)] := by
+        simp only [List.filter_cons, hg, if_true, filter_zipIdx_none G cs (n + 1) hnone]
+      obtain ⟨op, hop⟩ := Option.isSome_iff_exists.mp (hGop c (axisOf n) hg)
+      rw [hfil]
+      simp only [List.reverse_cons, List.reverse_nil, List.nil_append, List.filterMap_cons, hop,
+        List.filterMap_nil, runPlan_singleton]
+      rw [gatherOp_run _ _ _ hop]
+      exact modifyPick_rank_fail _ v _ (by simpa using hA 0 c (by simp) hg)
+
+/-- The chain over `pre ++ suf` runs the part for `suf` first. -/
+theorem gather_chain_split (G : Comp → Bool) (axisOf : Nat → Nat) (pre suf : List Comp) :
+    ((((pre ++ suf).zipIdx).filter (fun p => G p.1)).reverse).filterMap
+        (fun p => gatherOp (axisOf p.2) p.1)
+      = ((((suf.zipIdx pre.length).filter (fun p => G p.1)).reverse).filterMap
+            (fun p => gatherOp (axisOf p.2) p.1))
+        ++ ((((pre.zipIdx).filter (fun p => G p.1)).reverse).filterMap
+            (fun p => gatherOp (axisOf p.2) p.1)) := by
+  rw [List.zipIdx_append, List.filter_append, List.reverse_append, List.filterMap_append, Nat.zero_add]
+
+theorem axiswise_rank (f : Comp → List Nat → Except Err AxisMap) (D : Comp → Bool)
+    (hD : ∀ c srcs a, f c srcs = .ok a → a.isPick = !D c) :
+    ∀ (cs : List Comp) (ds : List Nat) (v : View), cs.length = ds.length →
+      axiswise f cs ds = .ok v → v.rank = (cs.filter (fun c => !D c)).length := by
+  intro cs
+  induction cs with
+  | nil =>
+    intro ds v hl h
+    cases ds with
+    | nil => simp only [axiswise, Except.ok.injEq] at h; subst h; rfl
+    | cons d ds => simp at hl
+  | cons c cs ih =>
+    intro ds v hl h
+    cases ds with
+    | nil => simp at hl
+    | cons d ds =>
+      obtain ⟨a, m, ha, hm, rfl⟩ := axiswise_cons_ok f c cs d ds v h
+      have := ih ds m (by simpa using hl) hm
+      have hp := hD c _ a ha
+      simp only [View.rank] at this ⊢
+      simp only [List.filter_cons, hp]
+      cases D c <;> simp [this]
+
+/-- **Too many indices**: a component at a position beyond the rank that is not `:` makes the
+translated graph fail (Slice names an axis that is not there, or the first Gather of the chain
+does) — for every expression, shape and path of the converter. -/
+theorem graph_surplus_nonskip_fails (comps : List Comp) (shape : List Nat) (j : Nat) (c : Comp)
+    (hj : comps[j]? = some c) (hjn : shape.length ≤ j) (hk : c.kind ≠ Kind.skip) :
+    ∃ e, graphIndex comps shape = .error e := by
+  have hjlen : j < comps.length := (List.getElem?_eq_some_iff.mp hj).1
+  unfold graphIndex planGraph
+  by_cases hempty : ((slicedOf comps).isEmpty && (scalarsOf comps).isEmpty && (nonScalarsOf comps).isEmpty) = true
+  · exfalso
+    simp only [Bool.and_eq_true, List.isEmpty_iff] at hempty
+    have h1 := filter_zipIdx_nil_forall (fun c => c.kind == Kind.scalar) comps 0 hempty.1.2 j c hj
+    have h2 := filter_zipIdx_nil_forall (fun c => c.kind == Kind.sliced) comps 0 hempty.1.1 j c hj
+    have h3 := filter_zipIdx_nil_forall (fun c => c.kind == Kind.nonScalar) comps 0 hempty.2 j c hj
+    cases hkk : c.kind <;> rw [hkk] at h1 h2 h3 hk <;>
+      first | (exact hk rfl) | (exact absurd h1 (by decide)) | (exact absurd h2 (by decide)) | (exact absurd h3 (by decide))
+  rw [if_neg hempty]
+  -- comps = pre ++ suf, the surplus components are `suf`
+  have hsplit : comps = comps.take shape.length ++ comps.drop shape.length := (List.take_append_drop _ _).symm
+  have hprelen : (comps.take shape.length).length = shape.length := by
+    rw [List.length_take]; omega
+  cases huse : useSlice comps with
+  | false =>
+    simp only [Bool.false_eq_true, if_false, bind, Except.bind]
+    have huse' := huse
+    simp only [useSlice, Bool.or_eq_false_iff, Bool.not_eq_false', decide_eq_false_iff_not] at huse'
+    have hsl' : slicedOf comps = [] := by simpa using huse'.1
+    have hg : (c.kind == Kind.nonScalar || c.kind == Kind.scalar) = true := by
+      have h2 := filter_zipIdx_nil_forall (fun c => c.kind == Kind.sliced) comps 0 hsl' j c hj
+      cases hkk : c.kind <;> rw [hkk] at h2 hk <;>
+        first | rfl | (exact absurd rfl hk) | (exact absurd h2 (by decide))
+    unfold gatherChain gatheredOf
+    have hchain := gather_chain_split (fun c => c.kind == Kind.nonScalar || c.kind == Kind.scalar)
+      (gatherAxis []) (comps.take shape.length) (comps.drop shape.length)
+    rw [List.take_append_drop] at hchain
+    rw [hchain, runPlan_append]
+    obtain ⟨e, he⟩ := gather_chain_fails (fun c => c.kind == Kind.nonScalar || c.kind == Kind.scalar)
+      (gatherAxis []) (fun c a hg => gatherOp_isSome_of_kind c a hg)
+      (comps.drop shape.length) (comps.take shape.length).length (View.init shape)
+      (by intro i c' _ _; rw [gatherAxis_nil, View.init_rank, hprelen]; omega)
+      ⟨j - shape.length, c, by rw [List.getElem?_drop, show shape.length + (j - shape.length) = j by omega]; exact hj, hg⟩
+    rw [he]
+    exact ⟨e, rfl⟩
+  | true =>
+    simp only [if_true]
+    by_cases hnone : ((sliceEntriesOf comps).any Option.isNone) = true
+    · rw [if_pos hnone]; exact ⟨_, rfl⟩
+    rw [if_neg hnone]
+    simp only [bind, Except.bind]
+    rw [runPlan_append]
+    -- a surplus slice or Python int: Slice itself names an axis that is not there
+    by_cases hss : ∃ j' c', comps[j']? = some c' ∧ shape.length ≤ j' ∧
+        (c'.kind = Kind.sliced ∨ c'.kind = Kind.scalar)
+    · obtain ⟨j', c', hj', hjn', hkind⟩ := hss
+      have hfind : ((sliceEntriesOf comps).filterMap id).find? (fun e => e.axis == j') = entryOf c' j' := by
+        rw [find_sliceEntriesOf, hj']
+      have hmem : entryOf c' j' ∈ sliceEntriesOf comps := by
+        refine List.mem_map.mpr ⟨(c', j'), ?_, rfl⟩
+        rcases hkind with hkk | hkk
+        · exact List.mem_append_left _ (List.mem_filter.mpr
+            ⟨List.mk_mem_zipIdx_iff_getElem?.mpr hj', by rw [hkk]; rfl⟩)
+        · exact List.mem_append_right _ (List.mem_filter.mpr
+            ⟨List.mk_mem_zipIdx_iff_getElem?.mpr hj', by rw [hkk]; rfl⟩)
+      cases hent : entryOf c' j' with
+      | none =>
+        exfalso
+        rw [hent] at hmem
+        exact hnone (List.any_eq_true.mpr ⟨none, hmem, rfl⟩)
+      | some e =>
+        rw [hent] at hfind
+        have hE : e ∈ (sliceEntriesOf comps).filterMap id := List.mem_of_find?_eq_some hfind
+        have hax : e.axis = j' := entryOf_axis c' j' e hent
+        have hsl : ∃ err, opSlice ((sliceEntriesOf comps).filterMap id) (View.init shape) = .error err := by
+          unfold opSlice
+          by_cases h0 : (((sliceEntriesOf comps).filterMap id).any fun e => e.step == 0) = true
+          · rw [if_pos h0]; exact ⟨_, rfl⟩
+          · rw [if_neg h0]
+            have : (((sliceEntriesOf comps).filterMap id).any fun e => decide (e.axis ≥ (View.init shape).rank)) = true :=
+              List.any_eq_true.mpr ⟨e, hE, by rw [View.init_rank, hax]; simpa using hjn'⟩
+            rw [if_pos this]; exact ⟨_, rfl⟩
+        obtain ⟨err, herr⟩ := hsl
+        rw [runPlan_append, runPlan_singleton]
+        simp only [runOp, herr]
+        exact ⟨err, rfl⟩
+    · -- the surplus components are `:` or tensor-valued, and `c` is tensor-valued
+      have hsuf : ∀ c' ∈ comps.drop shape.length, (c'.kind == Kind.sliced) = false ∧ (c'.kind == Kind.scalar) = false := by
+        intro c' hc'
+        obtain ⟨i, hi⟩ := List.getElem?_of_mem hc'
+        rw [List.getElem?_drop] at hi
+        have hno : ¬ (c'.kind = Kind.sliced ∨ c'.kind = Kind.scalar) :=
+          fun hkk => hss ⟨shape.length + i, c', hi, by omega, hkk⟩
+        cases hkk : c'.kind <;> rw [hkk] at hno <;> first | (exact ⟨rfl, rfl⟩) | (exact absurd (Or.inl rfl) hno) | (exact absurd (Or.inr rfl) hno)
+      have hcns : (c.kind == Kind.nonScalar) = true := by
+        have hno : ¬ (c.kind = Kind.sliced ∨ c.kind = Kind.scalar) := fun hkk => hss ⟨j, c, hj, hjn, hkk⟩
+        cases hkk : c.kind <;> rw [hkk] at hno hk <;>
+          first | rfl | (exact absurd rfl hk) | (exact absurd (Or.inl rfl) hno) | (exact absurd (Or.inr rfl) hno)
+      have h1 : slicedOf comps = slicedOf (comps.take shape.length) := by
+        conv => lhs; rw [hsplit]
+        exact filter_zipIdx_append_none (fun c => c.kind == Kind.sliced) _ _ (fun c' hc' => (hsuf c' hc').1)
+      have h2 : scalarsOf comps = scalarsOf (comps.take shape.length) := by
+        conv => lhs; rw [hsplit]
+        exact filter_zipIdx_append_none (fun c => c.kind == Kind.scalar) _ _ (fun c' hc' => (hsuf c' hc').2)
+      have h3 : sliceEntriesOf comps = sliceEntriesOf (comps.take shape.length) := by
+        unfold sliceEntriesOf; rw [h1, h2]
+      cases hv1 : runPlan ([PlanOp.slice ((sliceEntriesOf comps).filterMap id)]
+              ++ (if ((scalarsOf comps).map (fun p => p.2)).isEmpty then []
+                  else [PlanOp.squeeze ((scalarsOf comps).map (fun p => p.2))])) (View.init shape) with
+      | error e => exact ⟨e, rfl⟩
+      | ok v1 =>
+        have hpre : axiswise graphPre (comps.take shape.length) shape = .ok v1 := by
+          refine graph_slice_stage (comps.take shape.length) shape v1 (by omega) ?_ ?_
+          · rw [← h3]; exact Bool.eq_false_iff.mpr hnone
+          · rw [← h3, ← h2]; exact hv1
+        have hrank := axiswise_rank graphPre (fun c => c.kind == Kind.scalar) graphPre_isPick
+          (comps.take shape.length) shape v1 hprelen hpre
+        simp only []
+        unfold gatherChain nonScalarsOf
+        have hchain := gather_chain_split (fun c => c.kind == Kind.nonScalar)
+          (gatherAxis ((scalarsOf comps).map (fun p => p.2))) (comps.take shape.length) (comps.drop shape.length)
+        rw [List.take_append_drop] at hchain
+        rw [hchain, runPlan_append]
+        obtain ⟨e, he⟩ := gather_chain_fails (fun c => c.kind == Kind.nonScalar)
+          (gatherAxis ((scalarsOf comps).map (fun p => p.2)))
+          (fun c a hg => gatherOp_isSome_of_kind c a (by simp [hg]))
+          (comps.drop shape.length) (comps.take shape.length).length v1
+          (by
+            intro i c' hi _
+            rw [List.getElem?_drop] at hi
+            have hil : shape.length + i ≤ comps.length := by
+              have := (List.getElem?_eq_some_iff.mp hi).1
+              omega
+            have hga := gatherAxis_zipIdx (fun c => c.kind == Kind.scalar) comps (shape.length + i) hil
+            rw [hprelen]
+            simp only [scalarsOf]
+            rw [hga, hrank, List.take_add, List.filter_append, List.length_append]
+            omega)
+          ⟨j - shape.length, c, by rw [List.getElem?_drop, show shape.length + (j - shape.length) = j by omega]; exact hj, hcns⟩
+        rw [he]
+        exact ⟨e, rfl⟩
 
 end OV.Index
